@@ -304,11 +304,11 @@ Proof.
   pose proof (call_goal_ok g [] s Is Bg (Forall_nil _)) as HG.
   destruct (call_goal call g [] s) as [xs e]. cbn [fst] in HG. destruct e; [contradiction|].
   destruct (max_nxt_ge s xs) as [M1 M2].
-  assert (HC: forall y, In y xs -> nxt s <= nxt y /\ bounded (nxt y) (den_fast (sto y) t)).
-  { intros y Hy. destruct (HG y Hy) as [Iy Gy]. split; [apply Gy|].
+  assert (HC: forall y, In y xs -> 0 <= nxt y /\ bounded (nxt y) (den_fast (sto y) t)).
+  { intros y Hy. destruct (HG y Hy) as [Iy Gy]. split; [lia|].
     apply den_fast_bounded; [exact Iy|]. eapply bounded_mono; [apply Gy|exact Bt]. }
-  destruct (collect_bounded (nxt s) t xs (nxt s) (le_n _) HC) as [C1 C2].
-  destruct (collect (nxt s) (nxt s) t xs) as [es b]. cbn [fst snd] in *.
+  destruct (collect_bounded 0 t xs (nxt s) (Nat.le_0_l _) HC) as [C1 C2].
+  destruct (collect 0 (nxt s) t xs) as [es b]. cbn [fst snd] in *.
   set (s1 := {| sto := sto s; nxt := b |}) in *.
   assert (I1: inv s1) by (unfold inv, s1; cbn [sto nxt]; eapply store_bounded_mono; [|exact Is]; lia).
   assert (G1: grows s s1) by (unfold s1; split; cbn [sto nxt]; [lia|apply ext_refl]).
